@@ -30,9 +30,11 @@ import (
 	"fmt"
 	"io"
 	"math/rand"
+	"os"
 	"os/exec"
 	"strconv"
 	"strings"
+	"time"
 
 	"github.com/linuxboot/fiano/pkg/compression"
 
@@ -127,8 +129,15 @@ var dataKinds = []string{"rand", "zeros", "text", "x86", "dense", "hibytes", "pe
 //	hibytes E8/E9 followed by operands whose bytes are mostly 00 / FF / 7F / 80
 //	period  short random period repeated
 //	alpha   random over the reduced alphabet of the exhaustive enumeration
+//
+// and, for the extreme-ratio stream of gap3.go only (not in dataKinds: the older streams keep
+// their PRNG sequence): fillXX (a run of the byte XX), erased (erased flash with a few islands of
+// data), lperiod (a random block of 64 … 4096 bytes repeated).
 func genBytes(kind string, r *rand.Rand, n int) []byte {
 	b := make([]byte, n)
+	if genBytesExtreme(kind, r, b) {
+		return b
+	}
 	switch kind {
 	case "rand":
 		r.Read(b)
@@ -416,7 +425,11 @@ func (prop) Gen(r *rand.Rand, tier string) []core.Case {
 	}
 	// ---- (5)..(7) gap closing round 2 (gap2.go): block-boundary branches, far matches, stateful
 	// sequences. Drawn last (the streams above keep their PRNG sequence), run first.
-	return append(genGap2(r, tier), cs...)
+	// ---- (8)..(10) gap closing round 3 (gap3.go): extreme compression ratios, sizes around the
+	// codecs' internal thresholds, sequences mixing them. Drawn after (5)..(7), run before them.
+	g2 := genGap2(r, tier)
+	g3 := genGap3(r, tier)
+	return append(append(g3, g2...), cs...)
 }
 
 // ---------------------------------------------------------------- independent decoders
@@ -582,8 +595,13 @@ func setXZ(mode string) {
 	}
 }
 
-func (prop) Run(c core.Case) core.Outcome {
-	var out core.Outcome
+func (prop) Run(c core.Case) (out core.Outcome) {
+	if os.Getenv("VERIF_C08_TIMING") != "" {
+		t0 := time.Now()
+		defer func() {
+			fmt.Fprintf(os.Stderr, "TIMING %6d ms %s %s %s %s\n", time.Since(t0).Milliseconds(), c.Kind, c.Args["codec"], c.Args["xz"], c.Args["recipe"])
+		}()
+	}
 	M := func(what, req, exp string) {
 		out.Checks = append(out.Checks, core.Check{Tag: "M", What: what, Req: req, Exp: exp})
 	}
@@ -681,6 +699,10 @@ func (prop) Run(c core.Case) core.Outcome {
 		x := expand(c)
 		setXZ(c.Args["xz"])
 		name := c.Args["codec"]
+		// "big": oracle-only case of gap3.go — no whole-buffer request to the Lean model (a List
+		// of 16 M bytes); of the two front ends of liblzma, xz -d judges (whatever the size) and
+		// the python one (32 MiB of hex over a pipe for a 16 MiB input) is left out
+		big := c.Args["big"] != ""
 		comp := compressorFor(name)
 		impl := strings.TrimPrefix(fmt.Sprintf("%T", comp), "*compression.")
 		if _, ok := comp.(*compression.LZMAX86); ok {
@@ -715,6 +737,9 @@ func (prop) Run(c core.Case) core.Outcome {
 		out.Class = fmt.Sprintf("%s(%s):%s", name, impl, sizeBucket(len(orig)))
 		out.Trivial = len(orig) == 0
 		out.Key = fmt.Sprintf("%x", core.FNV(encCopy))
+		if strings.HasPrefix(c.Kind, "codec-ratio") || strings.HasPrefix(c.Kind, "corpus-ratio") {
+			out.Class += ":" + ratioBucket(len(orig), len(encCopy)) // histogram only
+		}
 		switch name {
 		case "LZMA", "LZMAX86":
 			// what the LZMA layer must carry: x itself, or the branch-filtered x
@@ -723,7 +748,7 @@ func (prop) Run(c core.Case) core.Outcome {
 				inner = append([]byte(nil), orig...)
 				compression.X86ConvertVerif(inner, 0, 0, true)
 				// T2: LZMAX86 = lzma ∘ filter with ip 0, state 0 (model: Framing.lzmax86Encode)
-				if len(orig) <= 1<<17 || modelAffordable(orig) {
+				if !big && (len(orig) <= 1<<17 || modelAffordable(orig)) {
 					plain, perr := (&compression.LZMA{}).Decode(append([]byte(nil), encCopy...))
 					exp := "err"
 					if perr == nil {
@@ -742,7 +767,11 @@ func (prop) Run(c core.Case) core.Outcome {
 			out.Checks = append(out.Checks, core.Check{Tag: "O", What: "lzma-header-size", Exp: fmt.Sprint(len(orig)), Got: hdr,
 				Sig: "lzma-header-size:" + impl})
 			// oracle: accepted by independent decoders, which return the (filtered) input
-			out.Class += ":indep=" + independentChecks(&out, impl, encCopy, inner, 5<<20)
+			if big {
+				out.Class += ":indep=" + independentChecksLim(&out, impl, encCopy, inner, -1, 1<<30)
+			} else {
+				out.Class += ":indep=" + independentChecks(&out, impl, encCopy, inner, 5<<20)
+			}
 			// T2: the header patch of SystemLZMA.Encode on the raw xz output (model: Framing.patchSize)
 			if strings.HasSuffix(impl, "SystemLZMA") && name == "LZMA" && len(encCopy) <= 4096 {
 				if raw, err := xzEncodeRaw(orig); err == nil {
